@@ -176,7 +176,9 @@ def final(t, scope, err):
             del err.__dict__[a]
     flat = parse(msg)
     if flat is None:
-        ROWS.append({'skipped': 'no trace header', 'message': msg[:200], 'cls': repr(type(err).__mro__), 'test': os.environ.get('PYTEST_CURRENT_TEST')})
+        ROWS.append({'skipped': 'no trace header', 'message': msg[:200], 'cls': type(err).__name__, 'test': os.environ.get('PYTEST_CURRENT_TEST'),
+                     # a GlomError subclass of the test itself that overrides __str__ speaks for itself
+                     'own_str': '__str__' in type(err).__dict__ and not type(err).__name__.startswith('GlomError.wrap(')})
         return
     spec_of = {f: _text(m[glom.Spec]) for f, m in t['maps'].items() if f > 1}
     tgt_of = {tok: _text(obj) for tok, obj in zip(range(1, len(t['objs']) + 1), t['objs'])}
@@ -186,13 +188,13 @@ def final(t, scope, err):
     try:
         n = nest(flat, t, spec_of, tgt_of, None)
     except ValueError as e:
-        ROWS.append({'unparsed': str(e), 'message': msg.split('\nTraceback')[0][:2000]})
+        ROWS.append({'unparsed': str(e), 'message': msg.split('\nTraceback')[0][:2000], 'test': os.environ.get('PYTEST_CURRENT_TEST')})
         return
     tail = msg.split('\n')[-1]
     want = ''.join(traceback.format_exception_only(type(wrapped), wrapped)).rstrip('\n').split('\n')[-1]
     ROWS.append({'events': list(t['events']), 'root': t['etok'][id(wrapped)], 'roottgt': root_tok, 'n': n,
                  'flat': [{'d': d, 'k': 'T' if r.startswith('Target: ') else 'S' if r.startswith('Spec: ') else 'E'} for d, _, r in flat],
-                 'tail_ok': tail == want or tail.endswith(want),
+                 'tail_ok': tail == want or tail.endswith(want), 'test': os.environ.get('PYTEST_CURRENT_TEST'),
                  'message': msg.split('\nTraceback')[0][:3000]})
 
 
